@@ -9,7 +9,7 @@ Open Scope N_scope.
 (* election by node 0's timer: 24 deliveries (4 pre-votes, 4 votes, 4 heartbeats, each with its answer) *)
 Lemma elect5 : forall rv,
   ndrain rv 24 (nstep rv (strip (init_default (N.of_nat 5))) (Tick 0 0 [])) = ss_gen 5 0 0 [].
-Proof. intros [[|] [|]]; vm_compute; reflexivity. Qed.
+Proof. intros [[|] [|] [|]]; vm_compute; reflexivity. Qed.
 
 (* the first append (the followers' last-entry term is still 0): 4 appends, 4 acknowledgements — the leader commits
    on the second one (quorum 3 with itself) and sends 4 heartbeats carrying the new commit index —, 4 heartbeats, 4 answers *)
